@@ -23,6 +23,9 @@ var Atoms = []string{
 	"repository:a:push",
 	"repository:catalog:pull",
 	"registry:catalog:*",
+	// actions the scope type has no compact form for (it keeps them in a separate sorted list)
+	"repository:a:delete",
+	"repository:catalog:delete",
 }
 
 // Set is a set of single resource scopes ("type:resource:action"), sorted, without duplicates.
